@@ -66,6 +66,24 @@ Decode(c, b, n, ok, y) ==
     /\ Matching(c, b, n) => (ok /\ y.len = enc[b].x.len /\ y.h = enc[b].x.h)
     /\ UNCHANGED csvars
 
+(* A batch: encode(c, x_i) immediately followed by decode(c, blob_i, n_i), for i = 1..k, under one *)
+(* model, logged as ONE event (the harness does this for the exhaustive small-scope sessions: 1093 *)
+(* strings).  items[i] = [x, eok, b, n, dok, y].  It is exactly the sequential composition         *)
+(*   Encode(c, x_i, b_i) ; Decode(c, b_i, n_i, dok_i, y_i)      (EncodeRefused when ~eok_i):       *)
+(* the model does not change in between, so Matching(c, b_i, n_i) reduces to n_i = len(x_i).        *)
+OkItems(items) == { i \in 1..Len(items) : items[i].eok }
+Roundtrips(c, items) ==
+    /\ \A i \in OkItems(items) :
+          /\ items[i].b \notin DOMAIN enc
+          /\ (items[i].n = items[i].x.len) =>
+                (items[i].dok /\ items[i].y.len = items[i].x.len /\ items[i].y.h = items[i].x.h)
+    /\ Cardinality({ items[i].b : i \in OkItems(items) }) = Cardinality(OkItems(items))    \* fresh, distinct blob ids
+    /\ enc' = [b \in DOMAIN enc \cup { items[i].b : i \in OkItems(items) } |->
+                 IF b \in DOMAIN enc THEN enc[b]
+                 ELSE LET i == CHOOSE k \in OkItems(items) : items[k].b = b IN
+                      [c |-> c, m |-> ModelOf(c), x |-> items[i].x]]
+    /\ UNCHANGED model
+
 (* the only results the contract accepts for a matching decode *)
 AcceptedDecodeResults(c, b, n, Ys) ==
     { r \in BOOLEAN \X Ys : Matching(c, b, n) => (r[1] /\ r[2].len = enc[b].x.len /\ r[2].h = enc[b].x.h) }
